@@ -76,7 +76,12 @@ func suiteLockup2(e *Env) {
 		if bal.IsPositive() {
 			e.Stat("lockup2.paid_back_before_second_matures")
 		}
-		for _, amt := range []sdkmath.Int{bal, bal.QuoRaw(2), sdkmath.NewInt(int64(1 + r.N(1000)))} {
+		// what the account itself reports as spendable (the paid-back coins are locked: if the query counts them, sending them must still fail)
+		amts := []sdkmath.Int{bal, bal.QuoRaw(2), sdkmath.NewInt(int64(1 + r.N(1000)))}
+		if sp, ok := sdkmath.NewIntFromString(h.info().spend); ok && sp.IsPositive() {
+			amts = append([]sdkmath.Int{sp}, amts...)
+		}
+		for _, amt := range amts {
 			if amt.IsPositive() {
 				h.exec([]string{"send", "a0", "a0", "a1", "urise", amt.String()})
 			}
